@@ -29,6 +29,7 @@ import (
 	"github.com/influxdata/influxdb/pkg/radix"
 	intar "github.com/influxdata/influxdb/pkg/tar"
 	"github.com/influxdata/influxdb/pkg/tracing"
+	"github.com/influxdata/influxdb/pkg/verifhook"
 	"github.com/influxdata/influxdb/query"
 	"github.com/influxdata/influxdb/tsdb"
 	_ "github.com/influxdata/influxdb/tsdb/index"
@@ -1625,6 +1626,7 @@ func (e *Engine) deleteSeriesRange(seriesKeys [][]byte, min, max int64) error {
 	}); err != nil {
 		return err
 	}
+	verifhook.Fire("del.tombstoned", e.path)
 
 	// find the keys in the cache and remove them
 	deleteKeys := make([][]byte, 0, len(seriesKeys))
@@ -1647,6 +1649,7 @@ func (e *Engine) deleteSeriesRange(seriesKeys [][]byte, min, max int64) error {
 	bytesutil.Sort(deleteKeys)
 
 	e.Cache.DeleteRange(deleteKeys, min, max)
+	verifhook.Fire("del.cache", e.path)
 
 	// delete from the WAL
 	if e.WALEnabled {
@@ -1654,6 +1657,7 @@ func (e *Engine) deleteSeriesRange(seriesKeys [][]byte, min, max int64) error {
 			return err
 		}
 	}
+	verifhook.Fire("del.wal", e.path)
 
 	// The series are deleted on disk, but the index may still say they exist.
 	// Depending on the the min,max time passed in, the series may or not actually
@@ -2003,6 +2007,9 @@ func (e *Engine) writeSnapshotAndCommit(log *zap.Logger, closedFiles []string, s
 
 	// write the new snapshot files
 	newFiles, err := e.Compactor.WriteSnapshot(snapshot)
+	if err == nil {
+		err = verifhook.FireErr("snap.written", e.path, newFiles)
+	}
 	if err != nil {
 		log.Info("Error writing snapshot from compactor", zap.Error(err))
 		return err
@@ -2024,6 +2031,8 @@ func (e *Engine) writeSnapshotAndCommit(log *zap.Logger, closedFiles []string, s
 		return err
 	}
 
+	verifhook.Fire("snap.installed", e.path, newFiles)
+
 	// clear the snapshot from the in-memory cache, then the old WAL files
 	e.Cache.ClearSnapshot(true)
 
@@ -2032,6 +2041,7 @@ func (e *Engine) writeSnapshotAndCommit(log *zap.Logger, closedFiles []string, s
 			log.Info("Error removing closed WAL segments", zap.Error(err))
 		}
 	}
+	verifhook.Fire("snap.walremoved", e.path, closedFiles)
 
 	return nil
 }
